@@ -14,7 +14,7 @@ checks, na = [], []
 import importlib  # noqa: E402
 for p in props:
     c = None
-    if os.path.exists(os.path.join(VERIF, "harness", "props", p.lower() + ".py")):
+    if p in mm.READY and os.path.exists(os.path.join(VERIF, "harness", "props", p.lower() + ".py")):
         c = getattr(importlib.import_module("props." + p.lower()), "MANIFEST", None)
     if c:
         checks.append({
